@@ -361,9 +361,18 @@ def check_decisions(ctx: Ctx) -> None:
         ctx.require("R-DECISION", "with self.container(...) in the list renderer", len(withs), 1)
         for w in withs:
             call = w.ast.items[0].context_expr
-            if not (isinstance(call, ast.Call) and call.args and isinstance(call.args[0], ast.Name)):
+            # positional or keyword arguments of container(prefix, second_prefix)
+            cargs: list[ast.AST | None] = [None, None]
+            if isinstance(call, ast.Call):
+                tgt_ = prog.resolve_call(m, call)
+                if isinstance(tgt_, list) and len(tgt_) == 1 and len(tgt_[0].params) >= 3:
+                    b_ = bind_call(tgt_[0], call)
+                    cargs = [b_.get(tgt_[0].params[1]), b_.get(tgt_[0].params[2])]
+                else:
+                    cargs = [call.args[0] if call.args else None, call.args[1] if len(call.args) > 1 else None]
+            if not isinstance(cargs[0], ast.Name):
                 raise AnalysisError("list renderer: container prefix is not a local variable")
-            pvar = call.args[0].id
+            pvar = cargs[0].id
             seen = {"T": False, "F": False}
             for d in flow.reaching(w, pvar):
                 guards = direct_guards(prog, m, d.node)
@@ -384,8 +393,8 @@ def check_decisions(ctx: Ctx) -> None:
                                    f"a bullet item's marker must be the list's own bullet character; it depends on {sorted(attrs)}", where(m, d.node))
             # the continuation indent must be as wide as the marker of *this* item: in the ordered arm it has to follow the
             # same item number (start + index) as the marker, not be computed once for the whole list
-            if len(call.args) >= 2 and isinstance(call.args[1], ast.Name):
-                svar = call.args[1].id
+            if isinstance(cargs[1], ast.Name):
+                svar = cargs[1].id
                 sdefs = flow.reaching(w, svar)
                 for d in sdefs:
                     guards = direct_guards(prog, m, d.node)
@@ -896,21 +905,31 @@ def check_encode(ctx: Ctx, rows: set[str] | None = None) -> None:
         n_ret = 0
         for r in flow.cfg.returns():
             v = r.ast.value
-            if not isinstance(v, ast.JoinedStr):
-                sl = prog.slice(m, v, r)
+
+            def parts_of(e: ast.AST) -> list[ast.AST] | None:
+                """pieces of an f-string or of a `+` concatenation, in order (constants stay Constant nodes)"""
+                if isinstance(e, ast.JoinedStr):
+                    return [p_.value if isinstance(p_, ast.FormattedValue) else p_ for p_ in e.values]
+                if isinstance(e, ast.BinOp) and isinstance(e.op, ast.Add):
+                    l_, r_ = parts_of(e.left), parts_of(e.right)
+                    return (l_ if l_ is not None else [e.left]) + (r_ if r_ is not None else [e.right])
+                return None
+
+            pieces = parts_of(v)
+            if pieces is None:
                 continue
             n_ret += 1
             lead = []
             text_seen = False
-            for part in v.values:
-                if isinstance(part, ast.FormattedValue):
-                    sl = prog.slice(m, part.value, r)
-                    org = origins(prog, m, part.value, r)
+            for part in pieces:
+                if not (isinstance(part, ast.Constant) and isinstance(part.value, str)):
+                    sl = prog.slice(m, part, r)
+                    org = origins(prog, m, part, r)
                     is_text = any(o[0] == "attr" and o[2] == "children" for o in org)
                     if is_text:
                         text_seen = True
                         break
-                    lead.append(("expr", part.value, sl))
+                    lead.append(("expr", part, sl))
                 else:
                     lead.append(("const", part, None))
             const_ticks = [p for k, p, _ in lead if k == "const" and "`" in str(p.value)]
@@ -1068,6 +1087,10 @@ def _lb(flow, expr: ast.AST | None, node: Node, sym: str, depth: int = 0) -> int
     """k such that expr >= sym + k on every path, or None."""
     if expr is None or depth > 8:
         return None
+    if not isinstance(sym, str):
+        # the symbol is an expression of the function (the scan call itself, used without a temporary)
+        if expr is sym:
+            return 0
     if isinstance(expr, ast.Name):
         if expr.id == sym:
             return 0
@@ -1225,7 +1248,7 @@ def check_fence_bound(ctx: Ctx) -> None:
         for d in flow.defs:
             if d.kind == "assign" and d.value is sc:
                 scan_var = d.var
-        k = _lb(flow, len_e, mn, scan_var) if scan_var else None
+        k = _lb(flow, len_e, mn, scan_var if scan_var else sc)
         ctx.ob("R-BOUND", f"{code_f.qual} :: emitted fence length >= required length", k is not None and k >= 0,
                f"the fence that is written must be at least as long as the scan demands; bound: "
                f"{'required %+d' % k if k is not None else 'none'} for `{norm(len_e)}`", where(code_f, mult))
